@@ -75,6 +75,12 @@ def run(ctx, chk):
                         ok = bool(al) and al[0].args[0] == n_ and pa.st.known_nonnull(dst, upto=e.nfacts)
                         why = "fresh block of %s bytes, non-NULL known: %s, copy length %s" % (DR.fmt_term(al[0].args[0]) if al else "?",
                                                                                               pa.st.known_nonnull(dst, upto=e.nfacts), DR.fmt_term(n_))
+                    elif isinstance(ptr_key(dst)[0], tuple) and ptr_key(dst)[0][0] == "alloca" and is_const(n_):
+                        # fixed-size copy into a local object (e.g. assembling a machine word)
+                        b_, o_ = ptr_key(dst)
+                        cap_ = prog.fn(b_[1]).insts[b_[2]].d.get("alloc_size")
+                        ok = cap_ is not None and o_ + n_[1] <= cap_
+                        why = "copy of %d byte(s) at offset %d into a local object of %s byte(s)" % (n_[1], o_, cap_)
                     elif isinstance(dst, tuple) and dst[0] == "idx":
                         names = [p["name"] for p in f.params]
                         if "buffer" in names and "buffer_size" in names:
@@ -159,7 +165,9 @@ def run(ctx, chk):
         for r in loops.classify_loops(prog, g):
             nl += 1
             if r["ok"] is None:
-                raise AnalysisBroken("%s: loop at %s has a shape the recogniser does not know (cannot decide termination)" % (g.name, r["where"]))
+                # cannot decide termination: analysis-broken (exit 2) once everything else has been reported
+                chk.floor("C01.loops", "%s: loop at %s has a shape the recogniser knows (%s)" % (g.name, r["where"], r["detail"]), 0, 1)
+                continue
             chk.ob("C01.loops", "%s: %s loop" % (g.name, r["kind"]), r["ok"], r["where"], fn=g.name, key="%s:%s:%d" % (g.name, r["kind"], r["header"].id),
                    detail=r["detail"] if not r["ok"] else "")
     chk.floor("C01.loops", "loops", nl, 18)
@@ -212,7 +220,7 @@ def run(ctx, chk):
     aw = "%s:%d" % (app.file, app.line)
     T = prog.enum("cbor_type")
     ndec = 0
-    for k, pa in enumerate(cache.get(app.name)):
+    for k, pa in enumerate(cache.get(app.name, inline_static=True)):
         parent_types = set()
         for key, vals in pa.st.inset.items():
             if isinstance(key, tuple) and key[0] == "ld" and key[2] == prog.field_offset("cbor_item_t", "type"):
@@ -271,8 +279,21 @@ def run(ctx, chk):
                         if all((isinstance(x, Inst) and x.op == "add" and x.operands[0] is i_ and isinstance(x.operands[1], Const) and x.operands[1].v == 1) or x is i_
                                for x in v0.operands):
                             second = True
-    chk.ob("C01.frame-invariants", "code point counter advances at most once per iteration of the byte loop (count <= length)", okc and second,
-           "%s:%d" % (uc.file, uc.line), fn=uc.name, key="cpcount")
+    if okc and second:
+        chk.ob("C01.frame-invariants", "code point counter advances at most once per iteration of the byte loop (count <= length)", True,
+               "%s:%d" % (uc.file, uc.line), fn=uc.name, key="cpcount")
+    else:
+        # a counter stepped by a constant other than 1 is a violation; any other shape cannot be decided here
+        big = False
+        for i_ in uc.all_insts():
+            if i_.op == "add" and isinstance(i_.operands[1], Const) and 1 < i_.operands[1].v < (1 << 63) and \
+                    any(u.op == "phi" for u in uc.users(i_)) and i_.type == "i64" and isinstance(i_.operands[0], Inst) and i_.operands[0].op == "phi":
+                big = True
+        if big:
+            chk.ob("C01.frame-invariants", "code point counter advances at most once per iteration of the byte loop (count <= length)", False,
+                   "%s:%d" % (uc.file, uc.line), fn=uc.name, key="cpcount", detail="a counter of the byte loop is stepped by more than 1")
+        else:
+            chk.floor("C01.frame-invariants", "recognised shape of the code point counting loop (cannot decide count <= length)", 0, 1)
 
     # 8. NULL discipline
     N = O.Nullness(prog, eff, cache)
